@@ -497,6 +497,7 @@ def parse_data(version, data_codewords):
     br = BitReader(bits)
     segs = []
     sa = None
+    sa_at = None
     eci = None
     if micro:
         mi = int(version[1]) - 1
@@ -514,7 +515,7 @@ def parse_data(version, data_codewords):
                 raise ValueError('mode %s not available in %s' % (mode, version))
             cnt = br.take(cl)
             segs.append((mode, read_segment(br, mode, cnt), None))
-        return dict(segments=segs, sa=None, end=br.pos, bits=bits)
+        return dict(segments=segs, sa=None, sa_at=None, end=br.pos, bits=bits)
     rng = 0 if version < 10 else 1 if version < 27 else 2
     while True:
         if br.left() < 4:
@@ -533,6 +534,7 @@ def parse_data(version, data_codewords):
                 eci = ((b & 0x1f) << 16) | br.take(16)
             continue
         if mi == 3:
+            sa_at = br.pos - 4
             sa = (br.take(4), br.take(4), br.take(8))
             continue
         if mi not in QR_MODES:
@@ -544,7 +546,7 @@ def parse_data(version, data_codewords):
                 raise ValueError('hanzi subset %d' % subset)
         cnt = br.take(CCI[mode][rng])
         segs.append((mode, read_segment(br, mode, cnt), eci))
-    return dict(segments=segs, sa=sa, end=br.pos, bits=bits)
+    return dict(segments=segs, sa=sa, sa_at=sa_at, end=br.pos, bits=bits)
 
 
 def read_segment(br, mode, cnt):
